@@ -102,3 +102,38 @@ def ival(t):
     if t[0] == "u": return t[1]
     if t[0] == "n": return -1 - t[1]
     raise Malformed("not an integer: %r" % (t[0],))
+
+def dump(t):
+    """canonical text of a parsed tree, encoding details (head widths, indefinite flags, chunking) included"""
+    k = t[0]
+    if k in ("u", "n"): return "%s%d/%d" % (k, t[1], t[2])
+    if k in ("b", "t"):
+        if t[2] is None: return "%s'%s'/%d" % (k, t[1].hex(), t[3])
+        return "%s(%s)" % (k, ",".join(c.hex() for c in t[2]))
+    if k == "a": return "[%s%s%s]" % ("_" if t[2] else "", "" if t[2] else "/%d " % t[3], " ".join(dump(x) for x in t[1]))
+    if k == "m": return "{%s%s%s}" % ("_" if t[2] else "", "" if t[2] else "/%d " % t[3], " ".join(dump(a) + ":" + dump(b) for a, b in t[1]))
+    if k == "tag": return "tag%d/%d(%s)" % (t[1], t[3], dump(t[2]))
+    if k == "s": return "s%d/%d" % (t[1], t[2])
+    if k == "f": return "f" + t[1].hex()
+    return "?"
+
+def canon_file_dump(data):
+    """text of a C-DNS output in which the address-event-count array of every block is sorted (the library keeps these in
+    an unordered_map, so their order is unspecified); everything else, encoding details included, is kept"""
+    try:
+        t = parse_all(data)
+        if t[0] == "a" and len(t[1]) == 3 and t[1][2][0] == "a":
+            blocks = []
+            for b in t[1][2][1]:
+                if b[0] == "m":
+                    ents = []
+                    for kk, vv in b[1]:
+                        if kk[0] == "u" and kk[1] == 4 and vv[0] == "a":
+                            vv = ("a", sorted(vv[1], key=dump), vv[2], vv[3])
+                        ents.append((kk, vv))
+                    b = ("m", ents, b[2], b[3])
+                blocks.append(b)
+            t = ("a", [t[1][0], t[1][1], ("a", blocks, t[1][2][2], t[1][2][3])], t[2], t[3])
+        return "%d:%s" % (len(data), dump(t))
+    except Malformed:
+        return data.hex() or "-"
